@@ -52,10 +52,26 @@ package literals
 //@   ensures @produces-a-call: r0 != nil
 //@ end
 
+//@ hookset arrays
+//@ hook before mvdan.cc/garble/internal/asthelper.ByteArrayType(l)
+//@   assert("array-has-the-declared-length-not-the-number-of-listed-elements", l == length)
+//@ hook before (*mvdan.cc/garble/internal/literals.obfRand).pickObfuscator(o, size)
+//@   assert("obfuscator-is-chosen-for-the-listed-bytes", size == len(data))
+//@ end
+
+// The decoded bytes are copied into a zeroed array of the declared length (a literal may list
+// fewer elements than the array holds): var newdata [N]byte; for i := range data { newdata[i] = data[i] };
+// return newdata (or &newdata).
 //@ func obfuscateByteArray
 //@   property C09 C05
+//@   hooks arrays
 //@   skip safety call-requires
 //@   ensures @produces-a-call: r0 != nil
+//@   ensures @result-array-is-declared-with-the-full-length: [C05] len(block.List) >= 3 && dyntypeis(block.List[len(block.List)-3], *ast.DeclStmt) && dyntypeis(block.List[len(block.List)-3].(*ast.DeclStmt).Decl, *ast.GenDecl) && block.List[len(block.List)-3].(*ast.DeclStmt).Decl.(*ast.GenDecl).Tok == token.VAR && block.List[len(block.List)-3].(*ast.DeclStmt).Decl.(*ast.GenDecl).Specs[0].(*ast.ValueSpec).Names[0].Name == "newdata" && block.List[len(block.List)-3].(*ast.DeclStmt).Decl.(*ast.GenDecl).Specs[0].(*ast.ValueSpec).Type == arrayType
+//@   ensures @decoded-bytes-are-copied-one-by-one: [C05] len(block.List) >= 3 && dyntypeis(block.List[len(block.List)-2], *ast.RangeStmt) && block.List[len(block.List)-2].(*ast.RangeStmt).Tok == token.DEFINE && block.List[len(block.List)-2].(*ast.RangeStmt).Key.(*ast.Ident).Name == "i" && isnil(block.List[len(block.List)-2].(*ast.RangeStmt).Value) && block.List[len(block.List)-2].(*ast.RangeStmt).X.(*ast.Ident).Name == "data" && len(block.List[len(block.List)-2].(*ast.RangeStmt).Body.List) == 1 && dyntypeis(block.List[len(block.List)-2].(*ast.RangeStmt).Body.List[0], *ast.AssignStmt)
+//@   ensures @copy-goes-from-data-to-newdata-at-the-same-index: [C05] len(block.List) >= 3 && block.List[len(block.List)-2].(*ast.RangeStmt).Body.List[0].(*ast.AssignStmt).Tok == token.ASSIGN && block.List[len(block.List)-2].(*ast.RangeStmt).Body.List[0].(*ast.AssignStmt).Lhs[0].(*ast.IndexExpr).X.(*ast.Ident).Name == "newdata" && block.List[len(block.List)-2].(*ast.RangeStmt).Body.List[0].(*ast.AssignStmt).Lhs[0].(*ast.IndexExpr).Index.(*ast.Ident).Name == "i" && block.List[len(block.List)-2].(*ast.RangeStmt).Body.List[0].(*ast.AssignStmt).Rhs[0].(*ast.IndexExpr).X.(*ast.Ident).Name == "data" && block.List[len(block.List)-2].(*ast.RangeStmt).Body.List[0].(*ast.AssignStmt).Rhs[0].(*ast.IndexExpr).Index.(*ast.Ident).Name == "i"
+//@   ensures @the-zero-padded-array-is-what-is-returned: [C05] len(block.List) >= 3 && dyntypeis(block.List[len(block.List)-1], *ast.ReturnStmt) && len(block.List[len(block.List)-1].(*ast.ReturnStmt).Results) == 1 && (!isPointer ==> block.List[len(block.List)-1].(*ast.ReturnStmt).Results[0].(*ast.Ident).Name == "newdata") && (isPointer ==> dyntypeis(block.List[len(block.List)-1].(*ast.ReturnStmt).Results[0], *ast.UnaryExpr) && block.List[len(block.List)-1].(*ast.ReturnStmt).Results[0].(*ast.UnaryExpr).Op == token.AND && block.List[len(block.List)-1].(*ast.ReturnStmt).Results[0].(*ast.UnaryExpr).X.(*ast.Ident).Name == "newdata")
+//@   ensures @the-emitted-block-is-the-body-of-the-call: [C05] dyntypeis(r0.Fun, *ast.FuncLit) && r0.Fun.(*ast.FuncLit).Body == block
 //@ end
 
 //@ func obfuscateString
